@@ -30,6 +30,7 @@ type tcpWorld struct {
 	events []string
 	conns  []*mockConn
 	dial   []string // script for the next dials: "ok;t" …
+	opN    int      // operations executed so far (which operation armed a deadline)
 }
 
 func (w *tcpWorld) ev(s string) {
@@ -66,6 +67,7 @@ type mockConn struct {
 	react    func(c *mockConn)
 	dlRemain int64 // ms left of the timeout when the last read deadline was armed (-1: none)
 	wdl      time.Time // write deadline (zero: none), honoured like a socket does
+	wdlOp    int       // the operation during which it was armed
 }
 
 func (c *mockConn) Read(p []byte) (int, error) {
@@ -97,8 +99,11 @@ func (c *mockConn) Write(b []byte) (int, error) {
 		return 0, net.ErrClosed
 	}
 	if !c.wdl.IsZero() && time.Now().After(c.wdl) {
-		// a write deadline that was armed earlier and has passed: the socket refuses the write
-		c.w.ev(fmt.Sprintf("zto%d", c.id))
+		// a write deadline that has passed: the socket refuses the write.  Reported as a stale deadline only when an
+		// earlier operation armed it (one armed for this very write and missed on a loaded machine is not the library's slip)
+		if c.wdlOp < c.w.opN {
+			c.w.ev(fmt.Sprintf("zto%d", c.id))
+		}
 		return 0, timeoutErr{}
 	}
 	f := c.fault
@@ -145,10 +150,10 @@ func (c *mockConn) LocalAddr() net.Addr                { return &net.TCPAddr{} }
 func (c *mockConn) RemoteAddr() net.Addr               { return &net.TCPAddr{} }
 func (c *mockConn) SetDeadline(t time.Time) error {
 	// both halves, as net.Conn says
-	c.wdl = t
+	c.wdl, c.wdlOp = t, c.w.opN
 	return c.SetReadDeadline(t)
 }
-func (c *mockConn) SetWriteDeadline(t time.Time) error { c.wdl = t; return nil }
+func (c *mockConn) SetWriteDeadline(t time.Time) error { c.wdl, c.wdlOp = t, c.w.opN; return nil }
 func (c *mockConn) SetReadDeadline(t time.Time) error {
 	c.w.ev(fmt.Sprintf("dl%d", c.id))
 	c.deadline = !t.IsZero()
@@ -221,6 +226,7 @@ func resOf(err error) string {
 }
 
 func (t *tcpRun) exec(op *ttree) (out string) {
+	t.w.opN++
 	x := []string{}
 	defer func() {
 		if r := recover(); r != nil {
